@@ -209,7 +209,7 @@ def judge(pid, results, verdict, given=None):
             if key not in saved:
                 d = os.path.join(vlib.VERIF, "replays", pid)
                 os.makedirs(d, exist_ok=True)
-                fn = os.path.join(d, re.sub(r"[^A-Za-z0-9_.-]", "_", key) + ".cmd")
+                fn = os.path.join(d, re.sub(r"[^A-Za-z0-9_.-]", "_", key.replace(">=", "ge").replace("<", "lt")) + ".cmd")
                 with open(fn, "w") as f:
                     f.write("# %s: %s line %d\n" % (key, r["name"], m["line"]))
                     f.write("\n".join(x for x in replay_slice(r, m["line"]) if x) + "\n")
